@@ -195,6 +195,9 @@ def gen_target(r, kind, depth=0):
     d = mk_dict(r, kind)
     for k in r.sample(KEYS, r.randint(0, 5)):
         d[k] = r.choice(SCALARS) if r.random() < 0.8 else [r.choice(SCALARS) for _ in range(r.randint(1, 3))]
+        if r.random() < 0.1:
+            # a key that EXISTS with the value None (hand-built / JSON-loaded dictionaries): "exists" is `k in d1`, not `d1.get(k)`
+            d[k] = None
     if r.random() < 0.2:
         # bookkeeping entries as loads(include_position / include_comments) leaves them: keys like any other for update
         d["__position__"] = {"line": r.randint(1, 99), "column": r.randint(1, 40), "name": {"line": r.randint(1, 99), "column": 3}}
